@@ -649,7 +649,9 @@ def run(case):
       'steps': len(log.events) + (si['yields'] if si else 0),
       'ops': {'calls': stats['calls'], 'thread_calls': stats['thread_calls'],
               'binds': sum(1 for o in case['ops'] if o['op'] == 'bind')},
-      'faults': {'preemption': stats['switches']},
+      'faults': {'preemption': stats['switches'],
+                 'call_fails_for_missing_required': stats['failing_calls'],
+                 'finalized_mid_history': stats.get('finalized', 0)},
       'probes': {'deep_scope_with_caller_value': stats['deep_scope_with_caller'],
                  'thread_epochs': 1 if si else 0},
       'sample_obs': [probes.stable(e) for e in log.events[:6]],
